@@ -45,7 +45,7 @@ def mc_cfgs(ctx):
     q = ctx.quick
     out = []
     # all graphs on <=2 (quick) / <=3 (thorough) reports, deps any subset of {h1,h2,h3,acc,unknown}, 14 seeded states
-    out.append(("graphs", dict(base, MaxAvail="2" if q else "3", Gaps="{1,2}" if q else "{1}", InitKind='"seeded3"'), False, 2 if q else 5))
+    out.append(("graphs", dict(base, MaxAvail="2" if q else "3", Gaps="{1,2}" if q else "{1}", InitKind='"seeded1"' if q else '"seeded2"'), False, 2 if q else 6))
     if not q:
         out.append(("graphs2", dict(base, MaxAvail="2", Gaps="{1,2}", InitKind='"seeded"'), False, 2))
     # every prerequisite / lookup / both division, <=2 reports
@@ -55,7 +55,8 @@ def mc_cfgs(ctx):
     out.append(("graphs4sym", dict(base, HS="{h1,h2,h3,h4}", XS="{hu}", MaxDeps="1" if q else "2", MaxAvail="4" if not q else "3",
                                    InitKind='"empty"', Gaps="{1}"), True, 1 if q else 3))
     # multi-block histories across slot gaps {1,2,E-1,E,E+1} = {1,2,3,4} for E = 3
-    out.append(("hist2", dict(base, XS="{}", MaxDeps="1", MaxBlocks="2", InitKind='"empty"', Gaps="{1,2,3,4}"), True, 1))
+    out.append(("hist2", dict(base, HS="{h1,h2}" if q else "{h1,h2,h3}", XS="{}", MaxDeps="1", MaxBlocks="2", InitKind='"empty"',
+                              Gaps="{1,2,3,4}"), True, 1 if q else 2))
     if not q:
         out.append(("hist3", dict(base, HS="{h1,h2}", XS="{}", MaxDeps="1", MaxBlocks="3", InitKind='"empty"', Gaps="{1,2,3,4}"), True, 2))
         out.append(("hist3one", dict(base, XS="{}", MaxDeps="2", MaxAvail="1", MaxBlocks="4", InitKind='"empty"', Gaps="{1,2,3,4}"), True, 2))
@@ -66,7 +67,7 @@ def mc_one(ctx, label, consts, sym, workers):
     raw = "CONSTANT Reports <- ReportsSplitOK\nCONSTANT Inits <- InitsMC\n"
     cfg = vf.cfg_text(constants=consts, invariants=["TypeOK", "InvQueueClean"], properties=["BlockChoice"], raw=raw,
                       symmetry="Sym" if sym else None)
-    vf.mc(ctx, "MC_AccQueue", cfg, workers=workers, timeout=1500, heap="6g", label="MC_AccQueue/" + label,
+    vf.mc(ctx, "MC_AccQueue", cfg, workers=workers, timeout=3300, heap="6g", label="MC_AccQueue/" + label,
           coverage=False)
 
 
@@ -215,9 +216,9 @@ def run(ctx):
     else:
         add("g3", 1, 12)
         add("g2", 1, 1)
-        add("g2s", 1, 5)
+        add("g2s", 2, 2)
         add("g4", 1, 2)
-        add("h2", 7, 2)
+        add("h2", 11, 1)
 
     rng = vf.Rng(ctx.seed)
     rnd_cases = [rnd_history(rng) for _ in range(1000 if q else 25000)] + [rnd_queue(rng) for _ in range(2000 if q else 60000)]
@@ -247,8 +248,8 @@ def run(ctx):
             samples.append([json.loads(x) for x in lines[:2]])
         if q:
             return lines             # quick: all traces are judged together in a few large shards (JVM warm-up dominates)
-        vf.validate_trace(Scoped(ctx, tag), "AccQueue_Trace", shard_lines(lines, target), stateful=True, invariants=INVS, par=2,
-                          heap="5g", timeout=1500, what=WHAT)
+        vf.validate_trace(Scoped(ctx, tag), "AccQueue_Trace", shard_lines(lines, target), stateful=True, invariants=INVS, par=1,
+                          heap="5g", timeout=3000, what=WHAT)
         return []
 
     with cf.ThreadPoolExecutor(P + 6) as ex:
@@ -273,7 +274,7 @@ def run(ctx):
     ctx.cov["rule"] = ("evaluations = Block events (one real run of W!, W_Q, W*, updateXi, updateVartheta) + direct calls of "
                        "QueueEditingFunction / AccumulationPriorityQueue; distinct_nontrivial = distinct available-report lists "
                        "(hashes, prerequisite and lookup lists, order) that contain at least one dependency; families: TLC-enumerated "
-                       "g3/g2/g2s/g4/h2 of AccQueue_Gen (quick: seeded 1-in-N sample; thorough: all of g3, g2, g2s, g4 and 1-in-7 of h2) "
+                       "g3/g2/g2s/g4/h2 of AccQueue_Gen (quick: seeded 1-in-N sample; thorough: all of g3, g2, g4 and 1-in-2 of g2s, 1-in-11 of h2) "
                        "+ seeded random histories (up to 12 reports per block, 3-8 blocks, E in {3,5,12}) and raw queues")
     if counts["panics"]:
         vf.log("  note: %d GoPanic events recorded (each is rejected by the trace spec)" % counts["panics"])
